@@ -56,12 +56,17 @@ func (k reqKind) name() string {
 }
 
 type exchange struct {
-	Stack string  `json:"stack"`
-	Cfg   cfg     `json:"cfg"`
-	Req   reqKind `json:"req"`
-	S     *script `json:"script"`
-	Pat   []int   `json:"read_sizes"`
-	Twice bool    `json:"same_request_object_twice,omitempty"` // the same *http.Request goes through RoundTrip twice; the second response is observed
+	Stack   string  `json:"stack"`
+	Cfg     cfg     `json:"cfg"`
+	Req     reqKind `json:"req"`
+	S       *script `json:"script"`
+	Pat     []int   `json:"read_sizes"`
+	Opened  cfg     `json:"opened_under,omitempty"` // live client: settings at its first exchange
+	Nth     int     `json:"exchanges_before,omitempty"`
+	LiveKey string  `json:"live_client_key,omitempty"`
+	Live    bool    `json:"live_client,omitempty"`               // one client per stack whose settings are toggled between exchanges
+	Via     string  `json:"via,omitempty"`                       // "h3-stream-body" / "h3-stream-read": the http3 request-stream API (res.Body / RequestStream.Read)
+	Twice   bool    `json:"same_request_object_twice,omitempty"` // the same *http.Request goes through RoundTrip twice; the second response is observed
 }
 
 type obs struct {
@@ -80,8 +85,15 @@ type obs struct {
 	AEs        []string `json:"attempt_accept_encodings,omitempty"` // Accept-Encoding of each of them
 }
 
+type liveState struct {
+	cl     *req.Client
+	opened cfg // settings at the first exchange (when the connection was opened)
+	n      int // exchanges made
+}
+
 type world struct {
 	o       *origins
+	live    map[string]*liveState
 	clients map[string]*req.Client
 	xn      int
 	hangs   int
@@ -120,6 +132,46 @@ func (w *world) client(stack string, c cfg) *req.Client {
 		cl.DisableAutoDecode()
 	}
 	w.clients[k] = cl
+	return cl
+}
+
+// liveClient: ONE client per stack; its settings are re-applied before every exchange, the connection
+// (h2 / QUIC connection, idle h1 connections) stays.
+func (w *world) liveClient(key string, c cfg) *req.Client {
+	stack := strings.SplitN(key, "/", 2)[0]
+	if w.live == nil {
+		w.live = map[string]*liveState{}
+	}
+	ls := w.live[key]
+	if ls == nil {
+		cl := req.C().EnableInsecureSkipVerify().SetTimeout(30 * time.Second)
+		switch stack {
+		case "h1":
+			cl.EnableForceHTTP1()
+		case "h2":
+			cl.EnableForceHTTP2()
+		case "h3":
+			cl.EnableForceHTTP3()
+		}
+		ls = &liveState{cl: cl, opened: c}
+		w.live[key] = ls
+	}
+	cl := ls.cl
+	if c.Disable {
+		cl.DisableCompression()
+	} else {
+		cl.EnableCompression()
+	}
+	if c.Auto {
+		cl.EnableAutoDecompress()
+	} else {
+		cl.DisableAutoDecompress()
+	}
+	if c.Text {
+		cl.EnableAutoDecode()
+	} else {
+		cl.DisableAutoDecode()
+	}
 	return cl
 }
 
@@ -165,7 +217,19 @@ func (w *world) do(x exchange) obs {
 func timeAfter(d time.Duration) <-chan time.Time { return time.After(d) }
 
 func (w *world) exchange(x exchange, xid string) (o obs) {
-	cl := w.client(x.Stack, x.Cfg)
+	if x.Via != "" {
+		return w.h3StreamExchange(x, xid)
+	}
+	return w.exchangeOn(x, xid)
+}
+
+func (w *world) exchangeOn(x exchange, xid string) (o obs) {
+	var cl *req.Client
+	if x.Live {
+		cl = w.liveClient(x.LiveKey, x.Cfg)
+	} else {
+		cl = w.client(x.Stack, x.Cfg)
+	}
 	hr, err := http.NewRequest(x.Req.Method, w.o.url(x.Stack, x.S.ID, xid), nil)
 	if err != nil {
 		o.Fatal = "newrequest: " + err.Error()
@@ -427,8 +491,13 @@ func coqCase(x exchange, o obs) string {
 			tab = append(tab, hk.CoqPair(coqEnc[e], hk.CoqPair(pk(out), hk.CoqBool(failed))))
 		}
 	}
+	opened, nth := x.Cfg, 0
+	if x.Live {
+		opened, nth = x.Opened, x.Nth
+	}
 	parts := []string{"C14Case", coqStack[x.Stack], hk.CoqBool(x.Cfg.Disable), hk.CoqBool(x.Cfg.Auto),
-		pks(x.Req.AE), pks(x.Req.Range), hk.CoqBool(head), hk.CoqBool(ended),
+		pks(x.Req.AE), pks(x.Req.Range), hk.CoqBool(head),
+		hk.CoqBool(opened.Disable), hk.CoqBool(opened.Auto), hk.CoqNat(nth), hk.CoqBool(ended),
 		pkList(s.CE), pkList(clh), hk.CoqZ(cl), hk.CoqBool(short), pk(blob(wire)), hk.CoqList(tab), coqNatList(x.Pat),
 		pks(o.SeenAE), pkList(o.AEs), pkList(o.CE), pkList(o.CLH), hk.CoqZ(o.CL), hk.CoqBool(o.Unc),
 		pk(blob(o.Body)), hk.CoqBool(o.Err != "" || o.Fatal != ""), hk.CoqBool(o.Sticky)}
